@@ -60,6 +60,9 @@ def model(tier):
     reuse = os.path.join(vlib.VERIF, "build", "scripts", "intmath_gen_%s.ndjson" % tier)
     if os.environ.get("VERIF_REUSE_GEN", "0") == "1" and os.path.exists(reuse):
         # mutation self-tests only: the model run does not depend on the tree under test
+        # such a run reports no model-checking counts: keep it away from the committed evidence file
+        if "VERIF_EVID" not in os.environ:
+            vlib.EVID = os.path.join(vlib.BUILD, "mutation_evidence")
         gen = [json.loads(l) for l in open(reuse)]
         return {"states": 0, "transitions": 0, "gen": gen, "out": reuse, "wall": 0.0, "reused": True}
     consts = {"quick": {"ZStride": "32"}, "thorough": {"ZStride": "1"}}[tier]
